@@ -277,6 +277,7 @@ func (g *Gen) doAppend(st *BState, in ssa.Instruction, c *ssa.CallCommon, v ssa.
 	inplace := g.fresh("app_inplace", "Bool")
 	g.assert(fmt.Sprintf("(= %s (<= %s (s-cap %s)))", inplace, newlen, s))
 	nr := g.freshRef(st, g.valName(v)+"_arr")
+	g.assume(st, fmt.Sprintf("(= (rtype %s) 0)", nr)) // not a struct object
 	ncap := g.fresh("app_cap", "Int")
 	g.assume(st, fmt.Sprintf("(and (>= %s %s) (<= %s 72057594037927936) (> %s 0))", ncap, newlen, ncap, ncap))
 	if es != "Opaque" {
@@ -426,6 +427,14 @@ func (g *Gen) callStatic(st *BState, in ssa.Instruction, callee *ssa.Function, a
 	}
 	if con != nil && con.Trusted {
 		g.usedTrusted[name+optVariant(con.Variant)] = true
+	}
+	if con != nil {
+		// a meta clause is assumed by callers and not proved in the body: it is an assumption
+		for _, e := range con.Ensures {
+			if e.Meta != "" {
+				g.usedTrusted["meta clause (assumed, not proved) "+shortFuncName(name)+"/"+e.Name+": "+e.Src] = true
+			}
+		}
 	}
 	// bind parameters
 	var params []*types.Var
@@ -664,6 +673,12 @@ func (g *Gen) callFrameCheck(st *BState, r *Region, calleeTargets []string, pos 
 	if !g.hasModifies {
 		return
 	}
+	if g.callGuard != "" && g.callGuard != "true" {
+		// one alternative of a call through a function value: only to be shown when that alternative is taken
+		save := st.pc
+		st.pc = g.namePC(fmt.Sprintf("(and %s %s)", st.pc, g.callGuard))
+		defer func() { st.pc = save }()
+	}
 	if r.Kind == "alloc" || r.Kind == "iter" {
 		return
 	}
@@ -885,12 +900,15 @@ func (g *Gen) doDynamicCall(st *BState, in ssa.Instruction, c *ssa.CallCommon, v
 	for i := 0; i < sig.Results().Len(); i++ {
 		rterms = append(rterms, g.fresh(fmt.Sprintf("r_dyn_%d", i), sortOf(sig.Results().At(i).Type())))
 	}
+	g.dynCallSiteObls(st, in, c, cands[0])
 	var guards []string
 	for _, f := range cands {
 		guard := g.namePC(fmt.Sprintf("(= %s %d)", fv, g.eng.funcTag(f)))
 		guards = append(guards, guard)
 		tmp := &synthValue{}
+		g.callGuard = guard
 		g.callStatic(st, in, f, c.Args, tmp, guard)
+		g.callGuard = ""
 		var got []string
 		if t, ok := g.tuples[tmp]; ok {
 			got = t
@@ -1385,4 +1403,87 @@ func (g *Gen) ownT(t types.Type, ref string) string {
 		return "(own " + ref + ")"
 	}
 	return ref
+}
+
+// dynName: how a call through a function value is labelled in call-site clauses: the name of the field or
+// variable the function value is read from (s.step(s, c) is "step").
+func dynName(v ssa.Value) string {
+	switch x := v.(type) {
+	case *ssa.UnOp:
+		if fa, ok := x.X.(*ssa.FieldAddr); ok {
+			if st, ok := deref(fa.X.Type()).Underlying().(*types.Struct); ok {
+				return st.Field(fa.Field).Name()
+			}
+		}
+		return dynName(x.X)
+	case *ssa.Field:
+		if st, ok := x.X.Type().Underlying().(*types.Struct); ok {
+			return st.Field(x.Field).Name()
+		}
+	case *ssa.Parameter:
+		return x.Name()
+	case *ssa.Alloc:
+		return x.Comment
+	}
+	return ""
+}
+
+// dynCallSiteObls: call-site clauses on a call through a function value (label <name>#N, N by source order);
+// arg_<param> uses the parameter names of the candidate functions (they share a signature).
+func (g *Gen) dynCallSiteObls(st *BState, in ssa.Instruction, c *ssa.CallCommon, proto *ssa.Function) {
+	if g.con == nil || len(g.con.CallSites) == 0 {
+		return
+	}
+	name := dynName(c.Value)
+	if name == "" {
+		return
+	}
+	type site struct {
+		in  ssa.Instruction
+		pos token.Pos
+	}
+	var sites []site
+	for _, b := range g.fn.Blocks {
+		for _, x := range b.Instrs {
+			if ci, ok := x.(ssa.CallInstruction); ok {
+				cc := ci.Common()
+				if !cc.IsInvoke() && cc.StaticCallee() == nil {
+					if _, isB := cc.Value.(*ssa.Builtin); !isB && dynName(cc.Value) == name {
+						sites = append(sites, site{x, x.Pos()})
+					}
+				}
+			}
+		}
+	}
+	sort.SliceStable(sites, func(i, j int) bool { return sites[i].pos < sites[j].pos })
+	n := 0
+	for i, s := range sites {
+		if s.in == in {
+			n = i + 1
+		}
+	}
+	label := fmt.Sprintf("%s#%d", name, n)
+	a, pos := g.anchor(in.Pos())
+	for _, cl := range g.con.CallSites {
+		if cl.Label != label {
+			continue
+		}
+		cl.Loop = 1 // seen
+		env := g.baseEnv(st.heap, g.entryHeap)
+		params := env.vars
+		env.vars = map[string]EnvVal{}
+		g.namedValues(in.Block(), env)
+		for k, ev := range params {
+			if _, ok := env.vars[k]; !ok {
+				env.vars[k] = ev
+			}
+		}
+		for i, p := range proto.Params {
+			if i < len(c.Args) {
+				env.vars["arg_"+p.Name()] = g.argEnvVal(st, c.Args[i], p.Type())
+			}
+		}
+		t := g.trBool(cl.Expr, env, cl)
+		g.addObl(st, "A", a+":"+cl.Name, pos, g.clauseProps(cl, g.allProps()), t, cl.Src)
+	}
 }
